@@ -20,7 +20,8 @@ func init() {
 			"(R3) every establisher goroutine is started for a region on whose MarkUnavailable() the starter won (true edge) or that it just looked up and marked; every tested MarkUnavailable() starts one on its true edge; MarkAvailable is called only by establishRegion; " +
 			"(R4) after waking up, a waiter re-reads the region's client before using the region; " +
 			"(R5) the primitives: MarkUnavailable creates the channel only on the nil edge under the lock and reports true only then; MarkAvailable swaps and closes under the lock; clientRegionCache.clientDown reads and deletes in one critical section; " +
-			"(R6) the establisher's 'should not happen' panics are unreachable: the probe is built and awaited with a context that cannot end, and the panic on an unknown lookup error is dominated by the tests for every error the lookup can return.",
+			"(R6) the establisher's 'should not happen' panics are unreachable: the probe is built and awaited with a context that cannot end, and the panic on an unknown lookup error is dominated by the tests for every error the lookup can return." +
+			" Added after the seeded-change rounds: (R3) a region is marked unavailable before it becomes visible in the cache, and clientDown marks the region the error was seen on on every path (shared with C04.R4); (R5) the once-guarded failure transition of a connection: signal, close the socket, then drain (shared with C03.R1).",
 		Residue:   "liveness (no request remains blocked once the cluster is stable); data races outside the guarded-field table (that is the race detector's domain); exact interleavings",
 		Technique: "lock-set analysis with caller summaries, token typestate dataflow over SSA with phi renaming, who-may-call tables, dominance",
 		Run:       runC09,
